@@ -89,6 +89,17 @@ class IR:
     def item(self, kind, v):
         return self.variant("rust_types::RustItem", kind, v)
 
+    def parsed_data(self, structs=(), enums=(), aliases=(), consts=(), crate="", file_name="", multi_file=False, import_types=None, type_names=None):
+        names = type_names
+        if names is None:
+            names = RMap("HashSet")
+        vals = dict(structs=RVec(list(structs)), enums=RVec(list(enums)), aliases=RVec(list(aliases)), consts=RVec(list(consts)),
+                    import_types=import_types if import_types is not None else RMap("HashSet"),
+                    crate_name=Agg(self.p + "language::CrateName", [self.s(crate)]), file_name=self.s(file_name), type_names=names,
+                    errors=RVec([]), multi_file=multi_file)
+        order = self.L.structs["ParsedData"]
+        return self.L.make_adt(self.p + "parser::ParsedData", [vals[n] for n in order], list(order))
+
     # ---- reading back
     def get(self, agg, struct_name, field):
         return agg.fields[self.L.structs[struct_name].index(field)]
